@@ -28,5 +28,5 @@ Proof. split; vm_compute; reflexivity. Qed.
 Theorem C18_unsigned_imm_refuted : model_bytes 16 (SMnem "ADD" [ident "CX"; num 65535])%string = Some [129; 193; 255; 255]
   /\ ok18 (16, SMnem "ADD" [ident "CX"; num 65535])%string = false.
 Proof. split; vm_compute; reflexivity. Qed.
-Example C18_domain_size : (Datatypes.length sweep_ri, Datatypes.length sweep_ri18) = (5264%nat, 4880%nat).
+Example C18_domain_size : (Z.of_nat (Datatypes.length sweep_ri), Z.of_nat (Datatypes.length sweep_ri18)) = (5264, 4880).
 Proof. vm_compute. reflexivity. Qed.
